@@ -98,7 +98,7 @@ class WorkerProc:
 
 # --------------------------------------------------------------------------------------- known findings
 def load_known() -> list[dict]:
-    p = VERIF / "known_findings.json"
+    p = Path(os.environ.get("DSIM_KNOWN", str(VERIF / "known_findings.json")))   # tooling: alternative list
     if not p.exists():
         return []
     return json.loads(p.read_text())
